@@ -323,6 +323,10 @@ func (s *senderWorld) genL2Block(seed uint64) MBlock {
 			continue
 		}
 		leaf := finLeaves[r.Intn(len(finLeaves))]
+		if r.Bool(40) {
+			// boundary bias: the newest finalized leaf is the one a lagging or stale view of the L1 info tree misses
+			leaf = finLeaves[len(finLeaves)-1]
+		}
 		if s.cw != nil {
 			if cl := s.cw.GenClaim(r, leaf, num, pos, ts); cl != nil {
 				b.Events = append(b.Events, bridgesync.Event{Claim: cl})
@@ -972,7 +976,7 @@ func runSender(prop string, tr *Trace, sc *Script, rec *Recorder, scratch string
 		labels := s.w.ParkedLabels()
 		wts := []int{int(cfg["w_l1mine"]), int(cfg["w_l1fin"]), int(cfg["w_l1sync"]), int(cfg["w_l2block"]), int(cfg["w_epoch"]), int(cfg["w_time"]),
 			int(cfg["w_rel"]), int(cfg["w_move"]), int(cfg["w_fault"]), int(cfg["w_lost"]), int(cfg["w_crash"]), int(cfg["w_losedb"]), int(cfg["w_savefault"]), int(cfg["w_pvodd"]), int(cfg["w_opt"]), int(cfg["w_crashsubmit"]), int(cfg["w_contradict"]), int(cfg["w_l2reorg"]), int(cfg["w_l2reorg"])}
-		if o := s.ag.open(); o == nil || cfg["fep"] == 1 || s.nodeIsBuilding() || o.To <= s.l2ReorgFloorWithout(o) {
+		if o := s.ag.open(); o == nil || s.nodeIsBuilding() || o.To <= s.l2ReorgFloorWithout(o) {
 			wts[18] = 0
 		}
 		if s.l2ReorgFloor() >= s.l2m.LastBlock() || s.nodeIsBuilding() {
@@ -1081,7 +1085,7 @@ func runSender(prop string, tr *Trace, sc *Script, rec *Recorder, scratch string
 			// the open certificate is rejected and, before the node builds its replacement, the L2 chain replaces the
 			// blocks from the certificate's last bridge on with the same transactions carrying other values
 			o := s.ag.open()
-			if o == nil || cfg["fep"] == 1 || s.nodeIsBuilding() {
+			if o == nil || s.nodeIsBuilding() {
 				return nil
 			}
 			bs, _ := s.eventsIn(o.From, o.To)
@@ -1137,7 +1141,7 @@ func runSender(prop string, tr *Trace, sc *Script, rec *Recorder, scratch string
 			// the new fork is there at once (a reorg replaces blocks, the syncer sees the rewind and the new blocks
 			// between two polls of the aggsender)
 			rr := NewRand(uint64(op.Arg(1)))
-			if op.Arg(3) == 1 {
+			if op.Arg(3) == 1 || (cfg["fep"] == 1 && first <= s.inErrorTo()) {
 				if v := s.remineSameShape(old, rr); v != nil {
 					return v
 				}
@@ -1475,27 +1479,33 @@ func (s *senderWorld) remineSameShape(old []MBlock, rr *Rand) *Violation {
 }
 
 // l2ReorgFloor: the last L2 block that may not be reorged any more: everything an accepted certificate covers
-// (a certificate in error does not count in the PP flow, which rebuilds its range; the aggchain-prover flow sends
-// the same range with the stored proof again, so there it counts), and the prover's start block.
+// (a certificate in error does not count: its range is certified again), and the prover's start block. The
+// aggchain-prover flow sends the SAME range again with the stored proof: there a reorg that reaches into that range
+// keeps the shape of the chain (same blocks, same transactions with other values).
 func (s *senderWorld) l2ReorgFloor() uint64 {
 	floor := uint64(s.cfg["start_l2"])
 	for _, c := range s.ag.Certs {
-		if c.Status == agInError && s.cfg["fep"] == 0 {
+		if c.Status == agInError {
 			continue
 		}
 		floor = max(floor, c.To)
 	}
-	for _, r := range s.pv.Resps {
-		floor = max(floor, r.RequestedEnd)
-	}
 	return floor
+}
+
+// inErrorTo: the last block of the latest certificate in error (0 if none).
+func (s *senderWorld) inErrorTo() uint64 {
+	if s.ag.Latest != nil && s.ag.Latest.Status == agInError {
+		return s.ag.Latest.To
+	}
+	return 0
 }
 
 // l2ReorgFloorWithout: the reorg floor if certificate o were in error.
 func (s *senderWorld) l2ReorgFloorWithout(o *AgCert) uint64 {
 	floor := uint64(s.cfg["start_l2"])
 	for _, c := range s.ag.Certs {
-		if c == o || (c.Status == agInError && s.cfg["fep"] == 0) {
+		if c == o || c.Status == agInError {
 			continue
 		}
 		floor = max(floor, c.To)
